@@ -55,6 +55,10 @@ pub struct FileNode {
     pub name: usize,
     pub pragma_once: bool,
     pub edges: Vec<Edge>,
+    /// name collisions with the positional input header: 1 = the same file name (in another
+    /// directory), 2 = a longer name with the same tail (`compat_<name>`)
+    #[serde(default)]
+    pub clash: u8,
 }
 
 #[derive(Clone, Debug, Serialize, Deserialize)]
@@ -68,6 +72,9 @@ pub struct Case {
     /// which of VAR_<t>, VAR_<t_>, VAR are set (bit mask)
     pub env_extra: u8,
     pub symlink_dir: bool,
+    /// a file the user includes from the command line (`-- -include <path>`), not an input header
+    #[serde(default)]
+    pub cmdline_include: Option<usize>,
 }
 
 const DIRS: &[&str] = &["top", "inc", "sys dir", "q", "deep/er", "top/sub"];
@@ -78,11 +85,20 @@ const ENV_TARGETS: &[&str] = &["x86_64-unknown-linux-gnu", "weird-target"];
 fn file_rel(c: &Case, i: usize) -> String {
     let f = &c.files[i];
     // make names unique per (dir,name) collision by prefixing the index
-    format!("{}/{}_{}", DIRS[f.dir % DIRS.len()], i, NAMES[f.name % NAMES.len()])
+    format!("{}/{}", DIRS[f.dir % DIRS.len()], file_base(c, i))
 }
 
 fn file_base(c: &Case, i: usize) -> String {
-    format!("{}_{}", i, NAMES[c.files[i].name % NAMES.len()])
+    let own = |k: usize| format!("{}_{}", k, NAMES[c.files[k].name % NAMES.len()]);
+    let main = c.inputs.last().copied().unwrap_or(0);
+    if i != main && main < c.files.len() && !c.inputs.contains(&i) {
+        match c.files[i].clash {
+            1 if c.files[i].dir % DIRS.len() != c.files[main].dir % DIRS.len() && !(0..i).any(|k| k != main && c.files[k].clash == 1 && c.files[k].dir % DIRS.len() == c.files[i].dir % DIRS.len()) => return own(main),
+            2 => return format!("compat{i}_{}", own(main)),
+            _ => {}
+        }
+    }
+    own(i)
 }
 
 fn rel_path(from_dir: &str, to: &str, dotdot: bool) -> String {
@@ -109,6 +125,9 @@ fn normalise(c: &mut Case) {
     c.inputs.retain(|i| seen.insert(*i));
     if c.inputs.is_empty() {
         c.inputs.push(0);
+    }
+    if matches!(c.cmdline_include, Some(k) if k >= n || c.inputs.contains(&k)) {
+        c.cmdline_include = None;
     }
     // `#pragma once` in a main file is ignored by clang (and handled differently by the clang
     // binary and libclang when the main file is also reached through -include): input headers
@@ -204,6 +223,7 @@ fn search_args(c: &Case, root: &Path) -> Vec<String> {
 fn model_reachable(c: &Case) -> BTreeSet<usize> {
     let mut seen: BTreeSet<usize> = BTreeSet::new();
     let mut stack: Vec<usize> = c.inputs.clone();
+    stack.extend(c.cmdline_include);
     while let Some(i) = stack.pop() {
         if !seen.insert(i) {
             continue;
@@ -367,7 +387,7 @@ fn case_strategy(max_files: usize) -> BoxedStrategy<Case> {
     };
     (2..=max_files)
         .prop_flat_map(move |n| {
-            let node = (0..DIRS.len(), 0..NAMES.len(), any::<bool>(), proptest::collection::vec(edge(n), 0..5)).prop_map(|(dir, name, pragma_once, edges)| FileNode { dir, name, pragma_once, edges });
+            let node = (0..DIRS.len(), 0..NAMES.len(), any::<bool>(), proptest::collection::vec(edge(n), 0..5), prop_oneof![16 => Just(0u8), 1 => Just(1u8), 1 => Just(2u8)]).prop_map(|(dir, name, pragma_once, edges, clash)| FileNode { dir, name, pragma_once, edges, clash });
             (
                 proptest::collection::vec(node, n),
                 prop_oneof![3 => Just(vec![0usize]), 1 => proptest::collection::vec(0..n, 1..4)],
@@ -376,10 +396,11 @@ fn case_strategy(max_files: usize) -> BoxedStrategy<Case> {
                 prop_oneof![2 => Just(None), 1 => (0..ENV_TARGETS.len()).prop_map(Some)],
                 0u8..8,
                 proptest::bool::weighted(0.2),
+                proptest::option::weighted(0.2, 0..n),
             )
         })
-        .prop_map(|(files, inputs, relative_input, depfile_target, env_target, env_extra, symlink_dir)| {
-            let mut c = Case { files, inputs, relative_input, depfile_target, env_target, env_extra, symlink_dir };
+        .prop_map(|(files, inputs, relative_input, depfile_target, env_target, env_extra, symlink_dir, cmdline_include)| {
+            let mut c = Case { files, inputs, relative_input, depfile_target, env_target, env_extra, symlink_dir, cmdline_include };
             normalise(&mut c);
             c
         })
@@ -432,13 +453,23 @@ impl Property for C17 {
             .iter()
             .map(|i| {
                 if c.relative_input {
-                    rel_path("top", &file_rel(&c, *i), false)
+                    // the shortest spelling from the working directory `top`
+                    let rel = file_rel(&c, *i);
+                    match rel.strip_prefix("top/") {
+                        Some(short) => short.to_string(),
+                        None => rel_path("top", &rel, false),
+                    }
                 } else {
                     root.join(file_rel(&c, *i)).to_str().unwrap().to_string()
                 }
             })
             .collect();
-        let sargs = search_args(&c, &root);
+        let mut sargs = search_args(&c, &root);
+        if let Some(k) = c.cmdline_include {
+            sargs.push("-include".into());
+            sargs.push(root.join(file_rel(&c, k)).to_str().unwrap().to_string());
+            out.class("include-from-command-line");
+        }
         let target_name = TARGET_NAMES[c.depfile_target % TARGET_NAMES.len()];
         let lang: Vec<String> = vec!["-x".into(), "c".into()];
         // --- oracle: clang -M
@@ -466,11 +497,16 @@ impl Property for C17 {
         }
         // cross-check the oracle with the generator's own model (catches a wrong oracle parse)
         let model: BTreeSet<String> = model_reachable(&c).iter().map(|i| canon(root.join(file_rel(&c, *i)).to_str().unwrap(), &cwd)).collect();
-        if model != expected {
+        // (with colliding file names a search-path include may find another file than the edge
+        // meant: the model does not resolve search paths, clang is the reference there)
+        let clashes = (0..c.files.len()).any(|i| file_base(&c, i) != format!("{}_{}", i, NAMES[c.files[i].name % NAMES.len()]));
+        if clashes {
+            out.class("file-name-collides-with-input-header");
+        }
+        if model != expected && !clashes {
             if env.replay {
                 println!("tree kept for inspection: {}", root.display());
             }
-            let _ = std::fs::write("/tmp/c17-disagree.json", serde_json::to_string(&json!({"case": case})).unwrap());
             return out.inconclusive(format!("harness: clang -M set and generator model disagree: clang {expected:?} model {model:?}"));
         }
         // --- bindgen in a worker (stdout capture, env)
